@@ -37,6 +37,7 @@ type LoopContract struct {
 	Ordinal    int
 	Invariants []*Clause
 	Decreases  *Clause
+	Decreases2 *Clause // second component of a lexicographic measure
 	ExitAsserts []*Clause
 	Line       int
 }
@@ -293,11 +294,19 @@ func (cs *ContractSet) readContractFile(path, pkgPath string) error {
 				if curLoop == nil {
 					return fmt.Errorf("%s:%d: decreases outside loop", path, l.n)
 				}
-				c, err := mk(rest)
+				parts := splitTop(rest, ',')
+				c, err := mk(strings.TrimSpace(parts[0]))
 				if err != nil {
 					return err
 				}
 				curLoop.Decreases = c
+				if len(parts) == 2 {
+					c2, err := mk(strings.TrimSpace(parts[1]))
+					if err != nil {
+						return err
+					}
+					curLoop.Decreases2 = c2
+				}
 			}
 		}
 	}
@@ -427,6 +436,20 @@ func parseSpec(kw, rest string) (*SpecFn, error) {
 func parseModTarget(s string) (ModTarget, error) {
 	if s == "*" {
 		return ModTarget{Kind: "all", Text: s}, nil
+	}
+	if strings.HasPrefix(s, "all(") && strings.HasSuffix(s, ")") {
+		e, err := parser.ParseExpr(s[4 : len(s)-1])
+		if err != nil {
+			return ModTarget{}, err
+		}
+		return ModTarget{Kind: "alltype", Expr: e, Text: s}, nil
+	}
+	if strings.HasPrefix(s, "allelems(") && strings.HasSuffix(s, ")") {
+		e, err := parser.ParseExpr(s[9 : len(s)-1])
+		if err != nil {
+			return ModTarget{}, err
+		}
+		return ModTarget{Kind: "allelems", Expr: e, Text: s}, nil
 	}
 	kind := "field"
 	es := s
